@@ -94,6 +94,16 @@ def gen_queries(rng, t, ng, tier, other=None):
                                             "avg(%s.v)" % tid, "count(v)", "count(g1)"]))
         if rng.random() < 0.15 and "avg(v)" in aggs:
             aggs.append("avg(v)")                # the same average twice
+        if shape != "join" and rng.random() < 0.3:
+            # aggregates under an alias - also one that is the name of a grouping column or of another column
+            # (an alias names the item, it never makes the aggregate a grouping key)
+            names = ["n", "total", "v", "c"] + ["g%d" % (gi + 1) for gi in range(ng)]
+            taken = set()
+            for ai in range(len(aggs)):
+                al = rng.choice(names)
+                if rng.random() < 0.6 and al not in taken:
+                    taken.add(al)
+                    aggs[ai] += rng.choice([" AS ", " "]) + al
         items += aggs
         rng.shuffle(items)
         q = "SELECT %s FROM %s" % (", ".join(items), frm)
